@@ -44,6 +44,9 @@ def run(model, tier="quick"):
                   "new bar: this bar's row, prices stored, all five caches emptied", ["set_market_status", "reset"])
     from .base_refs import base_helpers
     res.units["memo_container_methods"] = base_helpers(res, model, ("cache",))   # the typestate rule trusts reset/set/empty
+    # constructors establish the relations between fields that the references above take for granted
+    from .ctor_refs import constructors
+    res.units["constructor_references"] = constructors(res, model, ('aave',))
     from ..rules.fresh import fresh_rule
     if "R-FRESH" not in res.rules:
         res.rules.append("R-FRESH")
